@@ -66,10 +66,10 @@ func pushOrder(st *stream, h *History, o *obs, t int) []pushEv {
 type refSample struct {
 	data    []byte
 	ts      uint32 // RTP timestamp the builder reports for the sample
-	first   int  // packet index (stream.pk) at the builder's tail when the sample was popped, -1
-	tailIdx int  // ring index of the tail
+	first   int    // packet index (stream.pk) at the builder's tail when the sample was popped, -1
+	tailIdx int    // ring index of the tail
 	ringLen int
-	at      int  // index into the push sequence after which it was popped (len = forced at the end)
+	at      int // index into the push sequence after which it was popped (len = forced at the end)
 	forced  bool
 }
 
